@@ -407,7 +407,10 @@ class Segment:
     def pre_complete(self, md_done):
         """Snapshot taken just before treat_output(md_done)."""
         st = self.state
-        return {"pre_live": {int(t.path_number): [Fraction(str(x)) for x in st.traj_data[int(t.path_number)]["frac"][:self.N]]
+        # a live path without a record (possible only in a broken tree) counts as zero occupation here; the Complete event
+        # then reports it as a live path with no record and the monitor names the clause
+        return {"pre_live": {int(t.path_number): ([Fraction(str(x)) for x in st.traj_data[int(t.path_number)]["frac"][:self.N]]
+                                                  if int(t.path_number) in st.traj_data else [Fraction(0)] * self.N)
                              for t in st._trajs[:self.N]},
                 "ens": [int(e) + 1 for e in md_done["ens_nums"]],
                 "old": [int(p) for p in md_done["pnum_old"]], "pin": int(md_done["pin"])}
